@@ -10,12 +10,14 @@ Ty1(n)   == [k \in 1 .. n |-> 1 + ((k - 1) % 3)]
 Ty2(n)   == [k \in 1 .. n |-> 2 + ((k - 1) % 3)]
 Rad(n, b) == [k \in 1 .. n |-> b + ((k - 1) % 2)]
 Neg2(n)  == [k \in 1 .. n |-> <<-(3 * (k - 1) + 1), -5, -(7 * (k - 1) + 2)>>]      \* tree 2 below tree 1 on every axis
+\* co = 1: the junction of tree 2 already lies on node i;  co = 3: it lies one lattice step away from it on every axis (concretised with a
+\* small unit far from the origin, where "one step" is below any tolerance relative to the size of the coordinates)
 Pos2(n1, n2, i, j, co) == IF co = 0 THEN Base2(n2) ELSE IF co = 2 THEN Neg2(n2)
-                          ELSE [k \in 1 .. n2 |-> Add(Base2(n2)[k], Sub(Pos1(n1)[i + 1], Base2(n2)[j + 1]))]
+                          ELSE [k \in 1 .. n2 |-> Add(Add(Base2(n2)[k], Sub(Pos1(n1)[i + 1], Base2(n2)[j + 1])), IF co = 3 THEN <<1, 1, 1>> ELSE Zero3)]
 CCat == UNION { UNION { { [op |-> "cat", P1 |-> P1, P2 |-> P2, i |-> i, j |-> j, tr |-> tr, co |-> co,
                            pos1 |-> Pos1(Len(P1)), pos2 |-> Pos2(Len(P1), Len(P2), i, j, co),
                            ty1 |-> Ty1(Len(P1)), ty2 |-> Ty2(Len(P2)), rad1 |-> Rad(Len(P1), 1), rad2 |-> Rad(Len(P2), 2)]
-                          : i \in Nodes(P1), j \in Nodes(P2), tr \in {0, 1}, co \in {0, 1, 2} }
+                          : i \in Nodes(P1), j \in Nodes(P2), tr \in {0, 1}, co \in {0, 1, 2, 3} }
                         : P2 \in UNION { Topos(n) : n \in 1 .. MaxN2 } } : P1 \in UNION { Topos(n) : n \in 1 .. MaxN1 } }
 AllSeq   == SetToSeq(CRedir \cup CCat)
 Numbered == [k \in 1 .. Len(AllSeq) |-> [cid |-> k] @@ AllSeq[k]]
